@@ -102,49 +102,117 @@ func init() {
 		Doc: "setting a style property sets it: where setStyleDecl finds the property in the list it stores the new value — no look at the value that is there (its text, a suffix such as `!important`) keeps the old one. The :style merge and v-show's display:none go through this one function; a declaration that `wins` against the setter leaves an element visible that v-show hides while v-if drops its sibling",
 		Run: func(p *Prog, c *Ctx) {
 			fn := p.MustFn("vuego.setStyleDecl")
-			var valPrm *ssa.Parameter
-			for _, prm := range fn.Params {
-				if isString(prm.Type()) {
-					valPrm = prm // the last string parameter: the value
+			// what is new: everything setStyleDecl is given apart from the list itself (a value string, or a whole declaration)
+			isNewParam := func(v ssa.Value) bool {
+				prm, ok := v.(*ssa.Parameter)
+				if !ok || prm.Parent() != fn {
+					return false
+				}
+				_, isSlice := prm.Type().Underlying().(*types.Slice)
+				return !isSlice
+			}
+			var newBase func(v ssa.Value, d int) bool // v is a parameter, the spilled copy of one, or a field of one
+			newBase = func(v ssa.Value, d int) bool {
+				if d > 4 {
+					return false
+				}
+				switch x := v.(type) {
+				case *ssa.Parameter:
+					return isNewParam(x)
+				case *ssa.Field:
+					return newBase(x.X, d+1)
+				case *ssa.FieldAddr:
+					return newBase(x.X, d+1)
+				case *ssa.UnOp:
+					if x.Op == token.MUL {
+						return newBase(x.X, d+1)
+					}
+				case *ssa.Alloc:
+					sts := storesToCell(x)
+					if len(sts) == 0 {
+						return false
+					}
+					for _, st := range sts {
+						if !newBase(st.Val, d+1) {
+							return false
+						}
+					}
+					return true
+				}
+				return false
+			}
+			// the value field: the one of a list element into which something new is stored
+			stores := map[ssa.Instruction]bool{}
+			valFields := map[*types.Var]bool{}
+			eachInstr(fn, func(in ssa.Instruction) {
+				st, ok := in.(*ssa.Store)
+				if !ok || !newBase(st.Val, 0) {
+					return
+				}
+				if fa, ok := st.Addr.(*ssa.FieldAddr); ok {
+					if _, isEl := fa.X.(*ssa.IndexAddr); isEl {
+						if fv := fieldVar(fa); fv != nil {
+							stores[in] = true
+							valFields[fv] = true
+						}
+					}
+					return
+				}
+				if _, isStruct := st.Val.Type().Underlying().(*types.Struct); isStruct {
+					if _, isEl := st.Addr.(*ssa.IndexAddr); isEl {
+						stores[in] = true // a whole declaration put into the list
+					}
+				}
+			})
+			eachInstr(fn, func(in ssa.Instruction) { // the same field of the declaration that is appended
+				if st, ok := in.(*ssa.Store); ok && newBase(st.Val, 0) {
+					if fa, ok := st.Addr.(*ssa.FieldAddr); ok {
+						if fv := fieldVar(fa); fv != nil && valFields[fv] {
+							stores[in] = true
+						}
+					}
+				}
+			})
+			if len(stores) == 0 || len(fn.Blocks) == 0 {
+				undecided("setStyleDecl stores its value parameter nowhere")
+			}
+			// (a) every way through the setter stores the new value — in the declaration it found or in the one it appends
+			isRet := func(x ssa.Instruction) bool { _, ok := x.(*ssa.Return); return ok }
+			bad := ""
+			if first := fn.Blocks[0].Instrs[0]; !stores[first] {
+				if r := pathAvoiding(first, isRet, func(x ssa.Instruction) bool { return stores[x] }); r != nil {
+					bad = p.instrPos(r)
 				}
 			}
-			stores := map[ssa.Instruction]bool{}
-			eachInstr(fn, func(in ssa.Instruction) {
-				if st, ok := in.(*ssa.Store); ok && valPrm != nil && st.Val == ssa.Value(valPrm) {
-					stores[in] = true
-				}
-			})
+			c.check(bad == "", "setStyleDecl: every way to a return stores the new value", p.pos(fn.Pos()), fmt.Sprintf("%d stores of the new value", len(stores)), "the return at "+bad+" is reachable without the new value having been stored: some existing declarations survive the setter — `display:none` from v-show does not reach an element whose style says `display:flex !important`")
+			// (b) the value that is there is not looked at
 			n := 0
-			eachInstr(fn, func(in ssa.Instruction) {
-				ifi, ok := in.(*ssa.If)
-				if !ok {
-					return
-				}
-				b, ok := ifi.Cond.(*ssa.BinOp)
-				if !ok || b.Op != token.EQL {
-					return
-				}
-				isKeyTest := false
-				for _, side := range []ssa.Value{b.X, b.Y} {
-					if fl := loadedField(side); fl != nil && fieldIs(fl, "key") {
-						isKeyTest = true
+			walkFuncTree(fn, func(f *ssa.Function) {
+				eachInstr(f, func(in ssa.Instruction) {
+					v, ok := in.(ssa.Value)
+					if !ok {
+						return
 					}
-				}
-				if !isKeyTest {
-					return
-				}
-				n++
-				found := ifi.Block().Succs[0]
-				bad := ""
-				if len(found.Instrs) > 0 && !stores[found.Instrs[0]] {
-					if r := pathAvoiding(found.Instrs[0], func(x ssa.Instruction) bool { _, isRet := x.(*ssa.Return); return isRet }, func(x ssa.Instruction) bool { return stores[x] }); r != nil {
-						bad = p.instrPos(r)
+					fl := loadedField(v)
+					if fl == nil || !valFields[fl] {
+						return
 					}
-				}
-				c.check(len(stores) > 0 && bad == "", fmt.Sprintf("setStyleDecl: a found property gets the new value#%d", n), p.instrPos(ifi), "every way from the match to a return stores the value", "from the place where the property was found, the return at "+bad+" is reachable without the new value having been stored: some existing declarations survive the setter — `display:none` from v-show does not reach an element whose style says `display:flex !important`")
+					var base ssa.Value
+					switch x := v.(type) {
+					case *ssa.UnOp:
+						base = x.X
+					case *ssa.Field:
+						base = x.X
+					}
+					if f == fn && newBase(base, 0) {
+						return // the new declaration's own value
+					}
+					n++
+					c.fail(fmt.Sprintf("setStyleDecl: the value of an existing declaration is not read#%d", n), p.instrPos(in), "setStyleDecl reads the value of a declaration that is already in the list: whether the new value is stored then depends on the old one (`!important` wins, a non-empty value stays) — the setter no longer sets")
+				})
 			})
 			if n == 0 {
-				undecided("setStyleDecl stores its value parameter nowhere")
+				c.ok("setStyleDecl: the value of an existing declaration is not read", p.pos(fn.Pos()), "no load of the value field of a list element")
 			}
 		},
 	})
@@ -386,58 +454,85 @@ func init() {
 		Run: func(p *Prog, c *Ctx) {
 			fn := p.MustFn("(*vuego.Vue).evalAttributes")
 			n := 0
-			eachInstr(fn, func(in ssa.Instruction) {
-				b, ok := in.(*ssa.BinOp)
-				if !ok || b.Op != token.EQL || !isString(b.X.Type()) {
-					return
-				}
-				if _, isC := b.X.(*ssa.Const); isC {
-					return
-				}
-				if _, isC := b.Y.(*ssa.Const); isC {
-					return
-				}
-				// one side is (derived from) an attribute's Key, the other is not a constant: a twin search
-				isKey := func(v ssa.Value) bool {
-					if fl := loadedField(v); fl != nil && fieldIs(fl, "Key") {
-						return true
+			walkFuncTree(fn, func(sub *ssa.Function) {
+				eachInstr(sub, func(in ssa.Instruction) {
+					b, ok := in.(*ssa.BinOp)
+					if !ok || b.Op != token.EQL || !isString(b.X.Type()) {
+						return
 					}
-					if f, ok := v.(*ssa.Field); ok {
-						if fv := fieldVar(f); fv != nil && fieldIs(fv, "Key") {
+					if _, isC := b.X.(*ssa.Const); isC {
+						return
+					}
+					if _, isC := b.Y.(*ssa.Const); isC {
+						return
+					}
+					// one side is (derived from) an attribute's Key, the other is not a constant: a twin search
+					isKey := func(v ssa.Value) bool {
+						if fl := loadedField(v); fl != nil && fieldIs(fl, "Key") {
 							return true
 						}
-					}
-					return false
-				}
-				var from func(v ssa.Value, d int, seenK map[ssa.Value]bool) bool
-				from = func(v ssa.Value, d int, seenK map[ssa.Value]bool) bool {
-					if v == nil || seenK[v] || d > 5 {
+						if f, ok := v.(*ssa.Field); ok {
+							if fv := fieldVar(f); fv != nil && fieldIs(fv, "Key") {
+								return true
+							}
+						}
 						return false
 					}
-					seenK[v] = true
-					for _, o := range append(p.origins(v, OriginOpts{}), v) {
-						if isKey(o) {
-							return true
+					// the attribute a key was read from (the struct value, or the address of the element)
+					attrOf := func(v ssa.Value) ssa.Value {
+						switch x := v.(type) {
+						case *ssa.Field:
+							return x.X
+						case *ssa.UnOp:
+							if fa, ok := x.X.(*ssa.FieldAddr); ok {
+								return fa.X
+							}
 						}
-						if cl, ok := o.(*ssa.Call); ok && strings.HasPrefix(calleeName(&cl.Call), "strings.") {
-							for _, a := range callArgs(&cl.Call) {
-								if from(a, d+1, seenK) {
-									return true
+						return nil
+					}
+					roots := map[ssa.Value]map[ssa.Value]bool{b.X: {}, b.Y: {}}
+					var side ssa.Value
+					var from func(v ssa.Value, d int, seenK map[ssa.Value]bool) bool
+					from = func(v ssa.Value, d int, seenK map[ssa.Value]bool) bool {
+						if v == nil || seenK[v] || d > 5 {
+							return false
+						}
+						seenK[v] = true
+						for _, o := range append(p.origins(v, OriginOpts{}), v) {
+							if isKey(o) {
+								if r := attrOf(o); r != nil {
+									roots[side][r] = true
+								}
+								return true
+							}
+							if cl, ok := o.(*ssa.Call); ok && strings.HasPrefix(calleeName(&cl.Call), "strings.") {
+								for _, a := range callArgs(&cl.Call) {
+									if from(a, d+1, seenK) {
+										return true
+									}
 								}
 							}
 						}
+						return false
 					}
-					return false
-				}
-				direct := isKey(b.X) || isKey(b.Y)
-				derivedAny := from(b.X, 0, map[ssa.Value]bool{}) || from(b.Y, 0, map[ssa.Value]bool{})
-				if !direct && !derivedAny {
-					return
-				}
-				n++
-				// the bound name is cut out of the binding's own key (`:title` -> title): that side is derived by design.
-				// The *other* side — the candidate twin — has to be a key as it stands
-				c.check(direct, fmt.Sprintf("evalAttributes: attribute keys are compared as they are#%d", n), p.instrPos(b), "one side is a Key itself", "the comparison at "+p.instrPos(b)+" matches two names that are both *derived* from attribute keys: the candidate twin's key is transformed before it is compared (brackets stripped, …), so an attribute whose key only resembles the bound name — a bracketed literal attribute — is taken for its static twin and overwritten or merged")
+					direct := isKey(b.X) || isKey(b.Y)
+					side = b.X
+					dx := from(b.X, 0, map[ssa.Value]bool{})
+					side = b.Y
+					dy := from(b.Y, 0, map[ssa.Value]bool{})
+					if !direct && !dx && !dy {
+						return
+					}
+					for r := range roots[b.X] {
+						if roots[b.Y][r] {
+							return // a key compared with a name cut out of the same attribute: `is this a binding`, no twin search
+						}
+					}
+					n++
+					// the bound name is cut out of the binding's own key (`:title` -> title): that side is derived by design.
+					// The *other* side — the candidate twin — has to be a key as it stands
+					c.check(direct, fmt.Sprintf("evalAttributes: attribute keys are compared as they are#%d", n), p.instrPos(b), "one side is a Key itself", "the comparison at "+p.instrPos(b)+" matches two names that are both *derived* from attribute keys: the candidate twin's key is transformed before it is compared (brackets stripped, …), so an attribute whose key only resembles the bound name — a bracketed literal attribute — is taken for its static twin and overwritten or merged")
+				})
 			})
 			if n == 0 {
 				undecided("evalAttributes compares no attribute key with a computed name")
@@ -769,7 +864,7 @@ func init() {
 				// evalAttributes (the <template> and v-pre paths do not)
 				attrs := false
 				for _, s2 := range callsIn(fn) {
-					if calleeName(s2.Common()) == "(*vuego.Vue).evalAttributes" && (dominates(s2, site) || dominates(site, s2)) {
+					if calleeName(s2.Common()) == "(*vuego.Vue).evalAttributes" && (canFollowSameRound(s2, site) || canFollowSameRound(site, s2)) {
 						attrs = true
 					}
 				}
